@@ -16,7 +16,7 @@ RULE = ("G1 with-programs (all four function kinds) and G2 await/yield-from chai
         "extractions of the unchanged target compare equal; (c) retention - after one warm-up extraction in the same state, "
         "sys.getrefcount of the managers, the target, its frame and the bound methods on its value stack is unchanged by further "
         "extract-and-drop rounds, no object defined in a stackscope module refers to a manager, and the target is collectable "
-        "(weakref dies) after the run; (d) the worker process survives (a death is reported with the case). Also replays the "
+        "(weakref dies) after the run; (c2) on 3.11+, for a running frame that is inside a C-level call (every other probe goes through a C callable), the raw inspect_frame snapshot reads no more value-stack slots than the depth of the exception-table entry covering f_lasti as parsed by the standard library's dis (0 when none); (d) the worker process survives (a death is reported with the case). Also replays the "
         "saved F9 crash history. Non-trivial: a program with >= 2 extraction points at which managers were active and a later "
         "resumption; distinct = distinct (IR, points, mode).")
 ASSUMPTIONS = [
